@@ -377,6 +377,10 @@ func (ms *Modules) Process() []error {
 	// made by the same caller.
 	ms.mergedSubmodule = map[string]bool{}
 	ms.ClearEntryCache()
+	// Imports and includes are bound again by every run: a revision loaded
+	// since the last run may be the one an import without revision-date
+	// denotes now.
+	ms.includes = map[*Module]bool{}
 	// Types may have been resolved before now (an Entry asked for before
 	// Process, an earlier Process of fewer modules), against imports and
 	// identities that were not there yet. Every run resolves them afresh.
